@@ -13,9 +13,9 @@ META = dict(
     level_note="Trusted: z3, symx (incl. its int()/hex text models, self-tested against CPython). Key constructors are contract stubs: a secret exponent is "
                "accepted iff 1 <= e < n (InvalidSecretExponentError otherwise), decompression raises ValueError when no curve point exists, "
                "contains_point is an uninterpreted predicate. BIP32Node.deserialize is the REAL code (over the abstract group).",
-    stubs=["Base58Check = abstract bijection", "network.keys.private/public = documented contracts of Key.__init__ / from_sec", "curve = abstract group / uninterpreted predicates",
+    stubs=["Base58Check = abstract bijection", "Bech32 decoder = arbitrary (hrp, version, program, flavour)", "network.keys.private/public = documented contracts of Key.__init__ / from_sec", "curve = abstract group / uninterpreted predicates",
            "hashes = uninterpreted"],
-    assumptions=[], outside=["text longer than 4 characters in the free-text obligations; non-ASCII text", "Bech32 text (C11) and script compilation (wrapped in try/except in pycoin)",
+    assumptions=[], outside=["text longer than 4 characters in the free-text obligations; non-ASCII text", "the character-level Bech32 decoder (C11: here it is an arbitrary (hrp, version, program, flavour) tuple) and script compilation (wrapped in try/except in pycoin)",
                              "re-serialisation faithfulness of parsed objects (blob-level round trips are C09/C10/C08)"],
 )
 
@@ -55,8 +55,20 @@ class _Gen(object):
         return (x, y)
 
 
-def _mk_api(ctx, with_hd=True):
-    ParseAPI = imp("pycoin.networks.ParseAPI").ParseAPI
+CONFIGS = {
+    # name -> (wif, address, pay-to-script) prefixes; the 4-byte extended-key prefixes are Bitcoin's in every configuration
+    "btc": (b"\x80", b"\x00", b"\x05"),
+    "long-p2sh": (b"\x9e", b"\x1e", b"\x00\x64"),          # address and pay-to-script prefixes of different lengths (PIVX/MZC style)
+    "shared": (b"\x80", b"\x80", b"\x80\x05"),             # WIF and address share the prefix byte; the pay-to-script prefix extends it
+}
+_REAL = {}
+
+
+def _mk_api(ctx, with_hd=True, config="btc", bech32=None):
+    mod = imp("pycoin.networks.ParseAPI")
+    ParseAPI = mod.ParseAPI
+    _REAL.setdefault("parse_bech32", mod.parse_bech32)
+    mod.parse_bech32 = bech32 if bech32 is not None else _REAL["parse_bech32"]
     K = imp("pycoin.key.Key")
     sec = imp("pycoin.encoding.sec")
     gen = _Gen(ctx)
@@ -110,23 +122,58 @@ def _mk_api(ctx, with_hd=True):
     tools = imp("pycoin.coins.bitcoin.ScriptTools").BitcoinScriptTools
     net.contract = contract(net, tools)
     net.script = tools
+    wif, addr, p2s = CONFIGS[config]
     api = ParseAPI(net, bip32_prv_prefix=bytes.fromhex("0488ade4"), bip32_pub_prefix=bytes.fromhex("0488b21e"),
                    bip49_prv_prefix=bytes.fromhex("049d7878"), bip49_pub_prefix=bytes.fromhex("049d7cb2"),
                    bip84_prv_prefix=bytes.fromhex("04b2430c"), bip84_pub_prefix=bytes.fromhex("04b24746"),
-                   wif_prefix=b"\x80", address_prefix=b"\x00", pay_to_script_prefix=b"\x05", bech32_hrp="bc", sec_prefix="BTCSEC:")
+                   wif_prefix=wif, address_prefix=addr, pay_to_script_prefix=p2s, bech32_hrp="bc", sec_prefix="BTCSEC:")
     net.parse = api
     return api, net
 
 
-PREFIXES = {"wif": b"\x80", "p2pkh": b"\x00", "p2sh": b"\x05", "xprv": bytes.fromhex("0488ade4"), "xpub": bytes.fromhex("0488b21e"),
-            "yprv": bytes.fromhex("049d7878"), "zpub": bytes.fromhex("04b24746"), "other": b"\x42"}
+XP = {"xprv": bytes.fromhex("0488ade4"), "xpub": bytes.fromhex("0488b21e"), "yprv": bytes.fromhex("049d7878"), "zpub": bytes.fromhex("04b24746")}
 CHECKSUMMED = ["wif", "p2pkh", "p2sh", "bip32_prv", "bip32_pub", "bip32", "bip49", "bip84", "address", "payable", "hierarchical_key", "private_key", "secret", "__call__"]
 
 
-def checksummed(ctx, prefix_kind, body_len):
-    api, net = _mk_api(ctx)
-    payload = cat(PREFIXES[prefix_kind], ctx.sym_bytes("body", body_len))
+def _prefix(config, kind):
+    wif, addr, p2s = CONFIGS[config]
+    return dict(wif=wif, p2pkh=addr, p2sh=p2s, other=b"\x42", **XP)[kind]
+
+
+def _starts(payload, prefix):
+    n = len(prefix)
+    return len(payload) >= n and eq(payload[:n], prefix)
+
+
+def _spec(ctx, config, payload):
+    """what the property demands: which checksummed kinds this payload is a well-formed member of (each a bool or a symbolic condition)"""
+    wif, addr, p2s = CONFIGS[config]
+    L = len(payload)
+    spec = {}
+    spec["p2pkh"] = sym_and(_starts(payload, addr), L == len(addr) + 20)
+    spec["p2sh"] = sym_and(_starts(payload, p2s), L == len(p2s) + 20)
+    w = False
+    if L - len(wif) in (32, 33) and L >= len(wif):
+        e = from_be(payload[len(wif):len(wif) + 32])
+        w = sym_and(_starts(payload, wif), sym_and(e >= 1, e < N))
+        if L - len(wif) == 33:
+            w = sym_and(w, payload[L - 1] == 1)
+    spec["wif"] = w
+    return spec
+
+
+def _holds(ctx, accepted, cond, label):
+    """accepted (concrete on this path) must coincide with the specification's condition"""
+    ctx.check(cond if accepted else sym_not(cond), label)
+
+
+def checksummed(ctx, prefix_kind, body_len, config="btc"):
+    api, net = _mk_api(ctx, config=config, bech32=lambda s: None)
+    payload = cat(_prefix(config, prefix_kind), ctx.sym_bytes("body", body_len))
     api.parse_b58_hashed = lambda s: payload
+    spec = _spec(ctx, config, payload)
+    wif, addr, p2s = CONFIGS[config]
+    is_x = prefix_kind in XP and body_len == 74
     for name in CHECKSUMMED:
         f = getattr(api, name)
         try:
@@ -138,26 +185,83 @@ def checksummed(ctx, prefix_kind, body_len):
         if raised is not None:
             ctx.note("parse.%s raised %r on a payload of prefix %s + %d bytes" % (name, raised, prefix_kind, body_len))
         ctx.check(raised is None, "parse.%s-never-raises" % name)
-        if r is None:
-            continue
-        # whatever is returned has the kind of the payload's prefix and the right length
+        acc = r is not None
         if name in ("wif", "private_key"):
-            ctx.check(prefix_kind == "wif" and body_len in (32, 33), "wif-only-from-wif-payload-of-32-or-33-bytes")
-        elif name in ("p2pkh",):
-            ctx.check(prefix_kind == "p2pkh" and body_len == 20, "p2pkh-only-from-its-prefix-and-20-bytes")
-        elif name in ("p2sh",):
-            ctx.check(prefix_kind == "p2sh" and body_len == 20, "p2sh-only-from-its-prefix-and-20-bytes")
+            _holds(ctx, acc, spec["wif"], "%s-accepts-exactly-well-formed-wif-payloads" % name)
+            if acc:
+                k = len(wif)
+                ctx.check(sym_and(r.kind == "private", r.a[0] == from_be(payload[k:k + 32]), r.a[1] == (len(payload) - k == 33)), "wif-yields-the-encoded-exponent-and-compression-flag")
+        elif name == "p2pkh":
+            _holds(ctx, acc, spec["p2pkh"], "p2pkh-accepts-exactly-its-prefix-plus-20-bytes")
+            if acc:
+                ctx.check(eq(r.script(), cat(b"\x76\xa9\x14", payload[len(addr):], b"\x88\xac")), "p2pkh-yields-the-script-for-the-encoded-hash")
+        elif name == "p2sh":
+            _holds(ctx, acc, spec["p2sh"], "p2sh-accepts-exactly-its-prefix-plus-20-bytes")
+            if acc:
+                ctx.check(eq(r.script(), cat(b"\xa9\x14", payload[len(p2s):], b"\x87")), "p2sh-yields-the-script-for-the-encoded-hash")
         elif name in ("address", "payable"):
-            ctx.check(prefix_kind in ("p2pkh", "p2sh") and body_len == 20, "address-only-from-address-payloads")
-        elif name in ("bip32_prv",):
-            ctx.check(prefix_kind == "xprv" and body_len == 74, "xprv-only-from-78-byte-xprv-blob")
-        elif name in ("bip32_pub",):
-            ctx.check(prefix_kind == "xpub" and body_len == 74, "xpub-only-from-78-byte-xpub-blob")
+            _holds(ctx, acc, sym_or(spec["p2pkh"], spec["p2sh"]), "%s-accepts-exactly-address-payloads" % name)
+            if acc:
+                want = ite(spec["p2pkh"], 0, 1) if not isinstance(spec["p2pkh"], bool) else (0 if spec["p2pkh"] else 1)
+                sc = r.script()
+                ctx.check(sym_or(sym_and(spec["p2pkh"], eq(sc, cat(b"\x76\xa9\x14", payload[len(addr):len(addr) + 20], b"\x88\xac"))),
+                                 sym_and(spec["p2sh"], eq(sc, cat(b"\xa9\x14", payload[len(p2s):len(p2s) + 20], b"\x87")))), "%s-yields-the-script-of-the-payload-kind" % name)
+        elif name == "bip32_prv":
+            if acc:
+                ctx.check(prefix_kind == "xprv" and body_len == 74, "xprv-only-from-78-byte-xprv-blob")
+        elif name == "bip32_pub":
+            if acc:
+                ctx.check(prefix_kind == "xpub" and body_len == 74, "xpub-only-from-78-byte-xpub-blob")
         elif name in ("bip32", "bip49", "bip84", "hierarchical_key"):
-            ctx.check(prefix_kind in ("xprv", "xpub", "yprv", "zpub") and body_len == 74, "extended-key-only-from-78-byte-blob")
+            if acc:
+                ctx.check(is_x, "extended-key-only-from-78-byte-blob")
         elif name in ("secret", "__call__"):
-            ctx.check((prefix_kind == "wif" and body_len in (32, 33)) or (prefix_kind in ("xprv", "xpub", "yprv", "zpub") and body_len == 74)
-                      or (name == "__call__" and prefix_kind in ("p2pkh", "p2sh") and body_len == 20), "catch-all-returns-only-well-formed-kinds")
+            ok = sym_or(spec["wif"], is_x)
+            if name == "__call__":
+                ok = sym_or(ok, spec["p2pkh"], spec["p2sh"])
+            if acc:
+                ctx.check(ok, "catch-all-returns-only-well-formed-kinds")
+            else:
+                # a well-formed WIF or address must not be lost by the catch-all parsers
+                ctx.check(sym_not(sym_or(spec["wif"], sym_or(spec["p2pkh"], spec["p2sh"]) if name == "__call__" else False)), "catch-all-accepts-well-formed-wif-and-addresses")
+
+
+SEGWIT = {"p2pkh_segwit": (0, 20, "BECH32"), "p2sh_segwit": (0, 32, "BECH32"), "p2tr": (1, 32, "BECH32M")}
+
+
+def bech32(ctx, data_len, hrp_kind):
+    """abstract Bech32: the decoder returns an arbitrary (hrp, witness version, program, checksum flavour); every segwit and catch-all parser"""
+    b32 = imp("pycoin.contrib.bech32m")
+    hrp = {"own": "bc", "other": "tb", "prefix": "b", "longer": "bcx"}[hrp_kind]
+    version = ctx.sym_int("version", 0, 31)
+    flavour = ctx.choose("flavour", ["BECH32", "BECH32M"])
+    prog = ctx.sym_bytes("program", data_len)
+    tup = (hrp, version, prog, getattr(b32.Encoding, flavour))
+    api, net = _mk_api(ctx, with_hd=False, bech32=lambda s: tup)
+    api.parse_b58_hashed = lambda s: None
+    accepted = []
+    for name in ("p2pkh_segwit", "p2sh_segwit", "p2tr", "address", "payable", "__call__"):
+        try:
+            r = getattr(api, name)("TOKEN")
+            raised = None
+        except Exception as e:
+            raised, r = e, None
+        if raised is not None:
+            ctx.note("parse.%s raised %r" % (name, raised))
+        ctx.check(raised is None, "parse.%s-never-raises" % name)
+        acc = r is not None
+        conds = {k: sym_and(hrp == "bc", version == v, data_len == n, flavour == fl) for k, (v, n, fl) in SEGWIT.items()}
+        if name in SEGWIT:
+            _holds(ctx, acc, conds[name], "%s-accepts-exactly-its-version-length-and-checksum-flavour" % name)
+            if acc:
+                accepted.append(name)
+                v, n, fl = SEGWIT[name]
+                ctx.check(eq(r.script(), cat(B([0x50 + v if v else 0, n]), prog)), "%s-yields-the-witness-program-script" % name)
+        else:
+            _holds(ctx, acc, sym_or(*conds.values()), "%s-accepts-exactly-well-formed-segwit-addresses" % name)
+            if acc:
+                ctx.check(eq(r.script(), cat(B([ite(version == 0, 0, 0x50 + version), data_len]), prog)), "%s-yields-the-witness-program-script" % name)
+    ctx.check(len(accepted) <= 1, "segwit-kinds-kept-apart")
 
 
 ALPHA = "0159afAF:/,xEHP -_"
@@ -205,6 +309,17 @@ def obligations(tier):
         for L in ls:
             obs.append(Ob("C18.checksummed.%s.body%d" % (kind, L), checksummed, "validly checksummed payload: %s prefix + every %d-byte body, through 14 entry points" % (kind, L),
                           dict(prefix_kind=kind, body_len=L), weight=3, max_paths=50000, deadline_s=600))
+    for config, kinds in (("long-p2sh", {"wif": [32, 33], "p2pkh": [19, 20, 21, 22], "p2sh": [18, 19, 20, 21]}),
+                          ("shared", {"wif": [20, 21, 22, 32, 33], "p2pkh": [20, 21, 32], "p2sh": [19, 20, 31]})):
+        for kind, ls in kinds.items():
+            for L in ls:
+                obs.append(Ob("C18.checksummed.%s.%s.body%d" % (config, kind, L), checksummed,
+                              "prefix configuration '%s' (%s): %s prefix + every %d-byte body, through 14 entry points" % (config, "/".join(p.hex() for p in CONFIGS[config]), kind, L),
+                              dict(prefix_kind=kind, body_len=L, config=config), weight=3, max_paths=50000, deadline_s=600))
+    for hk in ("own", "other", "prefix", "longer"):
+        for L in ([20, 32] if hk != "own" else [0, 2, 19, 20, 21, 31, 32, 33, 40]):
+            obs.append(Ob("C18.bech32.%s-hrp.program%d" % (hk, L), bech32, "abstract Bech32 decoding: hrp %s, every witness version 0..31, both checksum flavours, every %d-byte program, "
+                          "through the 3 segwit parsers and 3 catch-all parsers" % (hk, L), dict(data_len=L, hrp_kind=hk), weight=2))
     for which in FREE:
         for n in ((0, 1, 2, 3) if not T else (0, 1, 2, 3, 4)):
             obs.append(Ob("C18.free-text.%s.len%d" % (which, n), free_text, "parse.%s on every %d-character text over %r" % (which, n, ALPHA), dict(n=n, which=which),
